@@ -5,6 +5,7 @@ package main
 import (
 	"fmt"
 	"go/token"
+	"go/types"
 	"sort"
 	"strings"
 
@@ -80,6 +81,11 @@ func ruleR9() *Rule {
 				eachInstr(f, func(_ *ssa.BasicBlock, in ssa.Instruction) {
 					if st, ok := in.(*ssa.Store); ok {
 						if sn, fld, _, ok := fieldOf(st.Addr); ok && sn == "Segment" && fld == "refs" {
+							found = true
+						}
+					}
+					if cs, ok := in.(ssa.CallInstruction); ok {
+						if op, _, ok := atomicRefsOp(cs); ok && (op == "Add" || op == "Store") {
 							found = true
 						}
 					}
@@ -199,7 +205,19 @@ func ruleR9() *Rule {
 						}
 					}
 				}
-				c.check(decStore != nil, "decrement", c.fpos(dec), dname+" decrements Segment.refs by one", "no `refs = refs - 1` store found in the caller of the release routine")
+				// the count kept in a sync/atomic integer: the decrement is `refs.Add(-1)`, and the value it
+				// returns is the decremented count (a separate Load would race with other decrements)
+				var decAdd *ssa.Call
+				if decStore == nil {
+					for _, cs := range callSites(dec) {
+						if op, arg, ok := atomicRefsOp(cs); ok && op == "Add" {
+							if k, isK := constInt64(arg); isK && k == -1 {
+								decAdd, _ = cs.(*ssa.Call)
+							}
+						}
+					}
+				}
+				c.check(decStore != nil || decAdd != nil, "decrement", c.fpos(dec), dname+" decrements Segment.refs by one", "no `refs = refs - 1` store (or atomic Add(-1)) found in the caller of the release routine")
 				// guard
 				zeroGuard := func(at ssa.Instruction) (bool, string) {
 					var guardOK bool
@@ -258,6 +276,9 @@ func ruleR9() *Rule {
 						isRefs := isLoadOfField(x, "Segment", "refs")
 						if decStore != nil && x == decStore.Val {
 							isRefs = true
+						}
+						if decAdd != nil && x == ssa.Value(decAdd) {
+							isRefs = true // the count as the atomic decrement returned it
 						}
 						if !isRefs {
 							continue
@@ -321,6 +342,11 @@ func ruleR9() *Rule {
 						hfi = heldAtOrAtCallers(p, decHelper, decStore, "Segment.m", 0)
 					}
 					lockHeld = hfi
+				}
+				if decAdd != nil && guardOK {
+					// atomic count: no critical section — the decision is taken on the value the atomic
+					// decrement itself returned (the guard above), which exactly one caller sees as zero
+					lockHeld = true
 				}
 				c.check(lockHeld, "release-under-mutex", c.pos(site), "the count is decremented and tested under Segment.m (the release runs with it held, or right after the critical section that saw zero)", "neither the call of the release routine nor the decrement-and-test that decides it happens with Segment.m held")
 				// the caches of an mmap-ed segment are cleared only when the last reference goes:
@@ -489,6 +515,14 @@ func ruleR9() *Rule {
 							}
 						}
 					}
+					if cs, ok := in.(ssa.CallInstruction); ok {
+						if aop, arg, ok := atomicRefsOp(cs); ok && aop == "Store" {
+							if k, ok := constInt64(arg); ok {
+								found = true
+								val = k
+							}
+						}
+					}
 				})
 				c.check(found && val == 1, "open-refs-1", c.fpos(op), "Open initialises Segment.refs to 1", fmt.Sprintf("initial value %d (found=%v)", val, found))
 			}
@@ -603,8 +637,130 @@ func ruleR9() *Rule {
 				}
 				c.check(okc, "inmemory-close", c.fpos(sc), "(*SegmentBase).Close clears both caches, releases nothing else and returns nil", strings.Join(uniq(why), "; "))
 			}
+			r9PinBalance(c)
 		},
 	}
+}
+
+// R9p PIN-BALANCE — a routine of the package that takes references on segments for its own use (calls
+// (*Segment).AddRef and does not hand a segment back) gives them back on every way out: on every path from
+// an AddRef to a return, a DecRef — direct, in a routine it calls that reaches DecRef and is handed a
+// segment or a list of segments, or in a deferred call — has run. Which segments is not tracked; an exit
+// that releases nothing at all (an error return in front of the release) is what this finds. No such routine
+// exists on the pinned tree (kept alive by the self-test).
+func r9PinBalance(c *RuleCtx) {
+	p := c.p
+	addRef := p.Method("Segment", "AddRef")
+	decRef := p.Method("Segment", "DecRef")
+	if addRef == nil || decRef == nil {
+		return
+	}
+	isSegs := func(t types.Type) bool {
+		if sl, ok := t.Underlying().(*types.Slice); ok {
+			t = sl.Elem()
+		}
+		return isNamedPtr(t, "Segment")
+	}
+	// routines that reach DecRef
+	reaches := map[*ssa.Function]bool{decRef: true}
+	for changed, n := true, 0; changed && n < 4; n++ {
+		changed = false
+		for _, f := range p.ZapFuncs {
+			if reaches[f] {
+				continue
+			}
+			for _, cs := range callSites(f) {
+				if g := resolvedCallee(cs); g != nil && reaches[g] {
+					reaches[f] = true
+					changed = true
+				}
+			}
+		}
+	}
+	n := 0
+	for _, fn := range p.ZapFuncs {
+		if fn.Parent() != nil || len(fn.Blocks) == 0 || fn == addRef || fn == decRef {
+			continue
+		}
+		pins := false
+		for _, cs := range callSites(fn) {
+			if staticCallee(cs) == addRef {
+				pins = true
+			}
+		}
+		if !pins {
+			continue
+		}
+		handsBack := false
+		res := fn.Signature.Results()
+		for i := 0; i < res.Len(); i++ {
+			if isSegs(res.At(i).Type()) {
+				handsBack = true
+			}
+		}
+		if handsBack {
+			continue
+		}
+		n++
+		var tr transferFn
+		tr = func(in ssa.Instruction, ev uint64, deferred bool) []uint64 {
+			cs, ok := in.(ssa.CallInstruction)
+			if !ok {
+				return nil
+			}
+			if _, isDefer := in.(*ssa.Defer); isDefer && !deferred {
+				return nil
+			}
+			g := resolvedCallee(cs)
+			if g == addRef {
+				return []uint64{(ev | 1) &^ 2}
+			}
+			if g == decRef {
+				return []uint64{ev | 2}
+			}
+			if g != nil && g.Parent() != nil && rootParent(g) == fn {
+				// a local closure that gives references back (typically in a loop over what was pinned —
+				// which may be nothing, so "on every path" is not the question; which elements is not tracked)
+				gives := false
+				for _, cs2 := range callSites(g) {
+					if h := resolvedCallee(cs2); h == decRef || (h != nil && reaches[h]) {
+						gives = true
+					}
+				}
+				if gives {
+					return []uint64{ev | 2}
+				}
+				return nil
+			}
+			if g != nil && reaches[g] {
+				for _, a := range cs.Common().Args {
+					if isSegs(a.Type()) {
+						return []uint64{ev | 2}
+					}
+				}
+			}
+			return nil
+		}
+		pa := newPathAnalysis(fn, tr)
+		pa.run(0)
+		labels := map[string]int{}
+		for _, ret := range returnsOf(fn) {
+			if !pa.reachable(ret.Block()) {
+				continue
+			}
+			lbl := exitLabel(ret, labels)
+			okc := true
+			for _, ev := range pa.statesBefore(ret) {
+				if ev&1 != 0 && ev&2 == 0 {
+					okc = false
+				}
+			}
+			v, _ := errorOfReturn(ret)
+			c.add(statusOf(okc), "pin-balance/"+funcShortName(fn)+"/"+lbl, c.pos(ret), "the references "+funcShortName(fn)+" took on segments for its own use are given back before this exit",
+				"a path leaves "+funcShortName(fn)+" after AddRef without any DecRef: the inputs keep a reference nobody will drop, their mappings and descriptors are never released", nil, exitWitness(c, ret, v))
+		}
+	}
+	c.ok("pin-balance/sites", "-", fmt.Sprintf("routines that take references for their own use: %d (pinned tree: none)", n))
 }
 
 func callerNames(cs []ssa.CallInstruction) string {
@@ -674,4 +830,27 @@ func heldAt(fn *ssa.Function, at ssa.Instruction, mu string) bool {
 		}
 	}
 	return true
+}
+
+// atomicRefsOp: cs is a method call of a sync/atomic integer type (Add, Store, Load, …) on the address of
+// Segment.refs; returns the method name and the argument (nil for Load).
+func atomicRefsOp(cs ssa.CallInstruction) (op string, arg ssa.Value, ok bool) {
+	f := staticCallee(cs)
+	if f == nil || f.Pkg == nil || f.Pkg.Pkg.Path() != "sync/atomic" || len(cs.Common().Args) == 0 {
+		return "", nil, false
+	}
+	sn, fld, _, isF := fieldOf(cs.Common().Args[0])
+	if !isF || sn != "Segment" || fld != "refs" {
+		return "", nil, false
+	}
+	if len(cs.Common().Args) > 1 {
+		arg = cs.Common().Args[1]
+	}
+	name := f.Name()
+	for _, pre := range []string{"Add", "Store", "Load", "CompareAndSwap", "Swap"} {
+		if strings.HasPrefix(name, pre) {
+			return pre, arg, true
+		}
+	}
+	return name, arg, true
 }
